@@ -9,10 +9,12 @@ from . import gen_hist, treejson as TJ
 def run_history(args):
     """One history: returns dict(ro_text, steps=[{ro_before(tree), msg_text, cls, obs | classify_err,
     completed_before, completed_after}], docs=[texts], ids=[ints])."""
-    seed, max_steps, with_delete, views = args
+    seed, max_steps, with_delete, views, live = args
     from . import impl, build as B
     rng = random.Random(seed)
-    g = gen_hist.Gen(rng)
+    # `live`: the history is only ever run on live objects (never fed to a collection as texts), so it
+    # may also use odd message IDs, add the same message *object* again and call msg.merge(ro) directly
+    g = gen_hist.Gen(rng, odd_message_ids=live)
     n = rng.randrange(1, max_steps + 1)
     ro_tree = g.ro(rng.randrange(0, 5))
     ro_text = TJ.to_text(ro_tree)
@@ -21,22 +23,37 @@ def run_history(args):
     delete_at = rng.randrange(0, n) if (with_delete and rng.random() < 0.5) else None
     steps = []
     docs = [ro_text]
+    objects = []           # (class label, text, live message object) of earlier steps
     for k in range(n):
         state = TJ.to_tree(ro.xml)
-        if k == delete_at:
+        mo = None
+        if live:
+            str(ro), ro.completed          # whatever the object caches must not go stale
+        obj = None
+        if live and objects and rng.random() < 0.08:
+            obj = rng.randrange(len(objects))
+            cls, msg_text, mo = objects[obj]      # the same message object is added again
+        elif k == delete_at:
             cls, msg = 'RunningOrderEnd', B.ro_delete(message_id=str(ids[k]))
+            msg_text = TJ.to_text(msg)
         else:
             cls, msg = gen_hist.random_message(g, state, ids[k])
-        msg_text = TJ.to_text(msg)
+            msg_text = TJ.to_text(msg)
         docs.append(msg_text)
         step = {'ro_before': state, 'msg_text': msg_text, 'cls': cls, 'k': k,
-                'completed_before': bool(ro.completed)}
+                'completed_before': bool(ro.completed), 'reused_object': mo is not None}
         kc = impl.classify_text(msg_text)
         if 'err' in kc:
             step['classify_err'] = kc['err']
         else:
-            mo = impl.load(msg_text)
-            step['obs'] = impl.add(ro, mo)
+            if mo is None:
+                mo = impl.load(msg_text)
+                obj = len(objects)
+                objects.append((cls, msg_text, mo))
+            step['obj'] = obj
+            direct = live and not step['completed_before'] and rng.random() < 0.12
+            step['obs'] = impl.add(ro, mo, via='merge' if direct else 'add')
+            step['via'] = 'merge' if direct else 'add'
             step['kind'] = kc['kind']
             step['completed_after'] = bool(ro.completed)
             step['msg_after'] = str(mo)
@@ -48,8 +65,8 @@ def run_history(args):
     return {'seed': seed, 'ro_text': ro_text, 'steps': steps, 'docs': docs, 'ids': [1] + ids}
 
 
-def run_histories(seeds, max_steps=12, with_delete=True, jobs=None, views=False):
-    args = [(s, max_steps, with_delete, views) for s in seeds]
+def run_histories(seeds, max_steps=12, with_delete=True, jobs=None, views=False, live=False):
+    args = [(s, max_steps, with_delete, views, live) for s in seeds]
     jobs = 1 if os.environ.get('VERIF_COVERAGE') else (jobs or min(16, os.cpu_count() or 1))
     if len(args) < 8 or jobs == 1:
         return [run_history(a) for a in args]
@@ -62,10 +79,131 @@ def history_cases(hists):
     """Merge-step cases (with the live implementation's observation attached)."""
     out = []
     for h in hists:
+        script = []
+        special = False
         for st in h['steps']:
+            script.append({'msg_text': st['msg_text'], 'obj': st.get('obj'), 'via': st.get('via', 'add')})
             if 'obs' not in st:
                 continue
-            out.append({'family': 'hist', 'cls': st['kind'], 'label': f'hist:seed={h["seed"]}:step={st["k"]}:{st["cls"]}',
-                        'ro': st['ro_before'], 'msg': TJ.parse(st['msg_text']), 'msg_text': st['msg_text'],
-                        'impl': dict(st['obs'], kind=st['kind'])})
+            c = {'family': 'hist', 'cls': st['kind'], 'label': f'hist:seed={h["seed"]}:step={st["k"]}:{st["cls"]}',
+                 'ro': st['ro_before'], 'msg': TJ.parse(st['msg_text']), 'msg_text': st['msg_text'],
+                 'impl': dict(st['obs'], kind=st['kind'])}
+            special = special or bool(st.get('reused_object')) or st.get('via') == 'merge'
+            if special:
+                # the step is only reproduced by the live history (object re-use / msg.merge(ro))
+                c['label'] += ':live(%s%s)' % ('reused-object ' if st.get('reused_object') else '', st.get('via', 'add'))
+                c['live_history'] = {'ro_text': h['ro_text'], 'script': list(script)}
+            out.append(c)
+    return out
+
+
+def replay_live(live_history):
+    """Re-run a recorded live history (same object re-use, same routes); returns the last step's
+    (tree before, observation)."""
+    from . import impl
+    ro = impl.load(live_history['ro_text'])
+    objects = {}
+    before, obs = None, None
+    for st in live_history['script']:
+        str(ro), ro.completed
+        before = TJ.to_tree(ro.xml)
+        if st['obj'] is None:
+            obs = None
+            continue
+        if st['obj'] not in objects:
+            objects[st['obj']] = impl.load(st['msg_text'])
+        mo = objects[st['obj']]
+        obs = impl.add(ro, mo, via=st['via'])
+        obs['kind'] = type(mo).__name__
+    return before, obs
+
+
+# ---- scripted histories: a message object added, its content edited in the running order, then the
+# ---- same object added again (to the same running order, after a roReplace restored it) ----------
+
+def _reuse_plans():
+    from . import build as B
+    from .treejson import E
+
+    def ro():
+        return B.ro_doc([B.story('S1', [B.item('a1'), B.p('one'), B.item('a2')]),
+                         B.story('S2', [B.item('b1')])], message_id='1')
+
+    def rr(mid):
+        return B.ro_replace([B.story('S1', [B.item('a1'), B.p('one'), B.item('a2')]),
+                             B.story('S2', [B.item('b1')])], message_id=str(mid))
+
+    def n_story():
+        return B.story('N', [B.item('n1'), B.p('carried text'), B.item('n2'), B.item('n3')])
+
+    carriers = {
+        'StoryAppend': B.story_append([n_story()], message_id='10'),
+        'StoryInsert': B.story_insert('S2', [n_story()], message_id='10'),
+        'StoryInsert-end': B.story_insert(B.BLANK, [n_story()], message_id='10'),
+        'StoryReplace': B.story_replace('S1', [n_story()], message_id='10'),
+        'EAStoryReplace': B.ea('REPLACE', {'storyID': 'S1'}, [[n_story()]], message_id='10'),
+        'EAStoryInsert': B.ea('INSERT', {'storyID': 'S2'}, [[n_story()]], message_id='10'),
+        'StorySend': B.story_send('N', [B.item('n1'), B.p('carried text'), B.item('n2'), B.item('n3')], message_id='10'),
+        'RunningOrderReplace': B.ro_replace([n_story(), B.story('S2', [B.item('b1')])], message_id='10'),
+        'ItemInsert': B.item_insert('S1', 'a2', [B.item('n1', extra=[E('itemEdDur', text='5')]), B.item('n2')], message_id='10'),
+        'ItemReplace': B.item_replace('S1', 'a1', [B.item('n1'), B.item('n2')], message_id='10'),
+        'EAItemInsert': B.ea('INSERT', {'storyID': 'S1', 'itemID': 'a2'}, [[B.item('n1'), B.item('n2')]], message_id='10'),
+        'EAItemReplace': B.ea('REPLACE', {'storyID': 'S1', 'itemID': 'a1'}, [[B.item('n1'), B.item('n2')]], message_id='10'),
+        'MetaDataReplace': B.metadata_replace([E('roSlug', text='new slug'), B.timing_md(duration='5')], message_id='10'),
+    }
+    story_of = lambda c: 'S1' if c.startswith(('ItemI', 'ItemR', 'EAItem')) else 'N'
+    edits = {
+        'ItemDelete': lambda s: B.item_delete(s, ['n1'], message_id='11'),
+        'ItemInsert': lambda s: B.item_insert(s, 'n2', [B.item('x1')], message_id='11'),
+        'ItemReplace': lambda s: B.item_replace(s, 'n2', [B.item('x2')], message_id='11'),
+        'ItemMoveMultiple': lambda s: B.item_move_multiple(s, ['n2', 'n1'], message_id='11'),
+        'EAItemSwap': lambda s: B.ea('SWAP', {'storyID': s}, [B.ids('itemID', ['n1', 'n2'])], message_id='11'),
+        'EAItemDelete': lambda s: B.ea('DELETE', {'storyID': s}, [B.ids('itemID', ['n2'])], message_id='11'),
+        'StorySend': lambda s: B.story_send(s, [B.item('y1')], message_id='11'),
+        'StoryDelete': lambda s: B.story_delete([s], message_id='11'),
+        'MetaDataReplace': lambda s: B.metadata_replace([E('roSlug', text='edited slug')], message_id='11'),
+    }
+    plans = []
+    for cn, carrier in carriers.items():
+        for en, edit in edits.items():
+            for restore in (False, True):
+                plan = [(cn.split('-')[0], carrier), (en, edit(story_of(cn)))]
+                if restore:
+                    plan.append(('RunningOrderReplace', rr(12)))
+                plan.append(('reuse', 0))
+                plans.append((f'{cn}/{en}/{"restored" if restore else "same"}', ro(), plan))
+    return plans
+
+
+def run_reuse_histories(views=False):
+    from . import impl
+    out = []
+    for name, ro_tree, plan in _reuse_plans():
+        ro_text = TJ.to_text(ro_tree)
+        ro = impl.load(ro_text)
+        steps, docs, objects = [], [ro_text], []
+        for k, (cls, msg) in enumerate(plan):
+            state = TJ.to_tree(ro.xml)
+            str(ro), ro.completed
+            if cls == 'reuse':
+                obj = msg
+                cls, msg_text, mo = objects[obj]
+                reused = True
+            else:
+                msg_text = TJ.to_text(msg)
+                mo = impl.load(msg_text)
+                obj = len(objects)
+                objects.append((cls, msg_text, mo))
+                reused = False
+            docs.append(msg_text)
+            step = {'ro_before': state, 'msg_text': msg_text, 'cls': cls, 'k': k, 'completed_before': bool(ro.completed),
+                    'reused_object': reused, 'via': 'add', 'obj': obj}
+            step['obs'] = impl.add(ro, mo)
+            step['kind'] = type(mo).__name__
+            step['completed_after'] = bool(ro.completed)
+            if views:
+                from . import access_family
+                step['view'] = access_family.read_view(ro)
+            steps.append(step)
+        out.append({'seed': 'reuse:' + name, 'ro_text': ro_text, 'steps': steps, 'docs': docs, 'ids': []})
     return out
